@@ -1093,6 +1093,7 @@ class Optimizer(object):
                     y_opt=np.min(yi),
                     acq_func=cand_acq_func,
                     acq_func_kwargs=self.acq_func_kwargs,
+                    random_state=self.rng,
                 )
 
                 # cache these values in case the strategy of ask is one-shot
@@ -1124,6 +1125,7 @@ class Optimizer(object):
                                     cand_acq_func,
                                     self.acq_func_kwargs,
                                     has_gradients(self.base_estimator_),
+                                    self.rng,
                                 ),
                                 bounds=transformed_bounds,
                                 # TODO: Use approximated gradient when not available
@@ -1180,7 +1182,7 @@ class Optimizer(object):
                     problem = PyMOOMixedVectorizedProblem(
                         space=self.space,
                         acq_func=lambda x: _gaussian_acquisition(
-                            self.space.transform(x), *args
+                            self.space.transform(x), *args, random_state=self.rng
                         ),
                     )
                     repair = ConfigSpaceRepair(self.space)
@@ -1227,7 +1229,9 @@ class Optimizer(object):
                         n_var=len(xl),
                         xl=xl,
                         xu=xu,
-                        acq_func=lambda x: _gaussian_acquisition(x, *args),
+                        acq_func=lambda x: _gaussian_acquisition(
+                            x, *args, random_state=self.rng
+                        ),
                     )
 
                     pop = self._pymoo_pop_size
